@@ -59,7 +59,7 @@ var tAlphabet = []string{"a", "b", "1", "_", "@", "'", "%", " ", "\n", ".", "é"
 
 // binding kinds for the name "a"
 var bindKinds = []string{"unbound", "nil-ident", "empty-block", "block", "nested-template", "placeholder-looking",
-	"no-arguments-at-all", "only-an-empty-Args-map", "only-a-nil-TArg"}
+	"no-arguments-at-all", "only-an-empty-Args-map", "only-a-nil-TArg", "whitespace-only-template", "tab-newline-block"}
 
 func bindingFor(kind int) (s snippet.Snippet, bound bool, text string) {
 	switch kind {
@@ -73,6 +73,10 @@ func bindingFor(kind int) (s snippet.Snippet, bound bool, text string) {
 		return snippet.Block("V"), true, "V"
 	case 4:
 		return snippet.T("[@b'@c]", snippet.Arg("b", snippet.Block("W")), snippet.Arg("c", snippet.Block(""))), true, "[W]"
+	case 9:
+		return snippet.T(" \t"), true, " \t" // text made of blanks only is text
+	case 10:
+		return snippet.Block("\t\n "), true, "\t\n "
 	default:
 		return snippet.Block("@a'%v@zz"), true, "@a'%v@zz"
 	}
@@ -467,7 +471,7 @@ func checkDirectiveShared(c *core.Ctx, dir string, args []string) {
 	}
 }
 
-var partKinds = []string{"nil-ident", "empty-block", "empty-template", "A", "B", "sprintf-empty", "nested-snippets"}
+var partKinds = []string{"nil-ident", "empty-block", "empty-template", "A", "B", "sprintf-empty", "nested-snippets", "blank-only-template", "blank-only-block", "newline-then-blank-template"}
 
 func part(k int) (snippet.Snippet, string) {
 	switch k {
@@ -483,6 +487,12 @@ func part(k int) (snippet.Snippet, string) {
 		return snippet.T("@x'B", snippet.Arg("x", snippet.Block(""))), "B"
 	case 5:
 		return snippet.Sprintf(""), ""
+	case 7:
+		return snippet.T(" "), " "
+	case 8:
+		return snippet.Block(" \t"), " \t"
+	case 9:
+		return snippet.T("\n\n  \n"), "  \n" // leading newlines go, the rest is text
 	default:
 		return snippet.Snippets(func(yield func(snippet.Snippet) bool) {
 			if !yield(snippet.Block("<")) {
